@@ -87,10 +87,11 @@ sexp sexp_bit_and (sexp ctx, sexp self, sexp_sint_t n, sexp x, sexp y) {
     } else if (sexp_bignump(y2)) {
       lenx = sexp_bignum_length(x2);
       leny = sexp_bignum_length(y2);
+      /* one more word than the longer operand, for the sign extension */
       if (leny < lenx)
-        res = sexp_copy_bignum(ctx, NULL, x2, 0);
+        res = sexp_copy_bignum(ctx, NULL, x2, lenx+1);
       else
-        res = sexp_copy_bignum(ctx, NULL, y2, 0);
+        res = sexp_copy_bignum(ctx, NULL, y2, leny+1);
       for (i=0, len=sexp_bignum_length(res); i<len; i++)
         sexp_bignum_data(res)[i]
           = (i<lenx ? sexp_bignum_data(x2)[i] : sexp_bignum_sign(x2) < 0 ? -1 : 0) &
@@ -139,12 +140,13 @@ sexp sexp_bit_ior (sexp ctx, sexp self, sexp_sint_t n, sexp x, sexp y) {
       if (sexp_bignum_sign(res) < 0)
         sexp_set_twos_complement(res);
     } else if (sexp_bignump(y) || sexp_fixnump(y)) {
+      /* one more word than the longer operand, for the sign extension */
       if (sexp_fixnump(y) || sexp_bignum_length(x) >= sexp_bignum_length(y)) {
-        res = sexp_copy_bignum(ctx, NULL, x, 0);
+        res = sexp_copy_bignum(ctx, NULL, x, sexp_bignum_length(x)+1);
         len = sexp_bignum_length(res);
         tmp = sexp_fixnump(y) ? sexp_fixnum_to_twos_complement(ctx, y, len) : sexp_twos_complement(ctx, y);
       } else {
-        res = sexp_copy_bignum(ctx, NULL, y, 0);
+        res = sexp_copy_bignum(ctx, NULL, y, sexp_bignum_length(y)+1);
         len = sexp_bignum_length(res);
         tmp = sexp_twos_complement(ctx, x);
       }
